@@ -130,10 +130,14 @@ _pb("C09", "contract-based deductive verification (pyvc) of grammarconst.label_s
     "label_strip_fanout removes exactly the maximal trailing digit run and raises IndexError exactly for all-digit "
     "labels (proved, with termination). File formats and the CLI are bounded only.",
     "proof for label_strip_fanout, bounded stand-in for the writers/readers; 'other'")
-_pb("C11", "contract-based deductive verification (pyvc) of filter_by_length; bounded stand-in for the token-editing transformations",
-    "filter_by_length drops exactly the trees the operator names (proved over the contract of terminals). The other "
-    "token-editing transformations are bounded only.",
-    "proof for filter_by_length, bounded stand-in for the rest; 'other'")
+_pb("C11", "contract-based deductive verification (pyvc) of filter_by_length and of trees.delete_terminal (three loops: climb to the root, upward pruning with list removal, renumbering) + a lemma over its contract; bounded stand-in for the token-editing transformations",
+    "filter_by_length drops exactly the trees the operator names. delete_terminal, the kernel of punctuation and trace "
+    "deletion, is proved for every well-formed tree and token: it returns the lowest ancestor of the token that keeps a "
+    "child (else the root), unlinks the token and exactly the unary ancestors it empties, leaves every other child list "
+    "as it was, and moves the number of every later token down by one while all other numbers stay; hence (lemma) tokens "
+    "numbered 1..n end up numbered 1..n-1 in the same order. The transformations that call it repeatedly (on a tree that "
+    "changes between the calls), insertion / substitution and trace handling are bounded only.",
+    "proof for filter_by_length and delete_terminal, bounded stand-in for the rest; 'other'")
 _pb("C12", "contract-based deductive verification (pyvc): lemma over the contract of lca (two distinct tokens always have a constituent lca that dominates both) + mover step of root_attach; bounded stand-in against the set-based reference",
     "root_attach's target is never None and is a constituent dominating both neighbours (lemma over the proved lca "
     "contract), and its re-attachment step keeps links consistent (block contract). That the result equals the documented "
